@@ -35,8 +35,10 @@ class _FakeBS:
         self.sh.__exit__()
 
 
-def _mk(w, dims):
+def _mk(w, dims, rel=True, fit=True):
     kw = dict(video_width=640, video_height=360) if dims else {}
+    if w != 7:
+        kw.update(relativize=rel, fit_to_screen=fit)
     if w == 0:
         return SRTWriter(**kw)
     if w == 1:
@@ -54,11 +56,11 @@ def _mk(w, dims):
     return LegacyDFXPWriter(**kw)
 
 
-def _unchanged(w, dims, cs):
+def _unchanged(w, dims, cs, rel=True, fit=True):
     before = snap_set(cs)
     with _FakeBS():
         try:
-            _mk(w, dims).write(cs)
+            _mk(w, dims, rel, fit).write(cs)
         except Exception:
             pass
     return "" if snap_set(cs) == before else "input caption set changed by write()"
@@ -104,14 +106,14 @@ NAMES = ("srt", "vtt", "mdvd", "scc", "sami", "dfxp", "single", "legacy")
 
 # --- one group of obligations per writer (generated text, kept in the file because CrossHair needs the source)
 
-def unchanged_srt(dims: bool, lay: int, style: int, ital: bool) -> str:
+def unchanged_srt(dims: bool, lay: int, style: bool, ital: bool, rel: bool, fit: bool) -> str:
     """
-    pre: 0 <= lay < 3 and 0 <= style < 3
+    pre: 0 <= lay < 3
     post: _ == ""
     """
     cs = build_set(set_l=_sel3(lay, 0, 2, 0), lang_l=_sel3(lay, 0, 1, 0), cap_l=_sel3(lay, 0, 1, 4), node_l=_sel3(lay, 0, 2, 4),
-                   style=style, set_styles=2, same_times=True, two_langs=True, italics=2 if ital else 1)
-    return _unchanged(0, dims, cs)
+                   style=2 if style else 1, set_styles=2, same_times=True, two_langs=True, italics=2 if ital else 1)
+    return _unchanged(0, dims, cs, rel, fit)
 
 
 def deterministic_srt(lay: bool, style: bool, ital: int, same: bool) -> str:
@@ -120,28 +122,30 @@ def deterministic_srt(lay: bool, style: bool, ital: int, same: bool) -> str:
     post: _ == ""
     """
     cs = build_set(cap_l=1 if lay else 0, node_l=0, style=1 if style else 0, set_styles=1, italics=ital, same_times=same)
-    other = build_set(cap_l=2, node_l=1, italics=2, two_langs=True, style=1, set_styles=1)
+    # the set written before: another document that reuses the class name s1 with other rules, has an unclosed
+    # span, two languages and layouts at several levels
+    other = build_set(cap_l=2, node_l=1, italics=2, two_langs=True, style=1, set_styles=3)
     return _deterministic(0, True, cs, other)
 
 
-def unchanged_full_srt(dims: bool, cap_l: int, node_l: int, style: int, same: bool, ital: bool, sst: int) -> str:
+def unchanged_full_srt(dims: bool, cap_l: int, node_l: int, style: int, same: bool, ital: bool, sst: int, rel: bool, fit: bool) -> str:
     """
     pre: 0 <= cap_l < 3 and 0 <= node_l < 3 and 0 <= style < 3 and 0 <= sst < 3
     post: _ == ""
     """
     cs = build_set(set_l=_sel3(cap_l, 0, 2, 0), lang_l=_sel3(node_l, 0, 0, 1), cap_l=_sel3(cap_l, 0, 1, 4), node_l=_sel3(node_l, 0, 2, 4),
                    style=style, set_styles=sst, same_times=same, two_langs=True, italics=2 if ital else 1)
-    return _unchanged(0, dims, cs)
+    return _unchanged(0, dims, cs, rel, fit)
 
 
-def unchanged_vtt(dims: bool, lay: int, style: int, ital: bool) -> str:
+def unchanged_vtt(dims: bool, lay: int, style: bool, ital: bool, rel: bool, fit: bool) -> str:
     """
-    pre: 0 <= lay < 3 and 0 <= style < 3
+    pre: 0 <= lay < 3
     post: _ == ""
     """
     cs = build_set(set_l=_sel3(lay, 0, 2, 0), lang_l=_sel3(lay, 0, 1, 0), cap_l=_sel3(lay, 0, 1, 4), node_l=_sel3(lay, 0, 2, 4),
-                   style=style, set_styles=2, same_times=True, two_langs=True, italics=2 if ital else 1)
-    return _unchanged(1, dims, cs)
+                   style=2 if style else 1, set_styles=2, same_times=True, two_langs=True, italics=2 if ital else 1)
+    return _unchanged(1, dims, cs, rel, fit)
 
 
 def deterministic_vtt(lay: bool, style: bool, ital: int, same: bool) -> str:
@@ -150,28 +154,30 @@ def deterministic_vtt(lay: bool, style: bool, ital: int, same: bool) -> str:
     post: _ == ""
     """
     cs = build_set(cap_l=1 if lay else 0, node_l=0, style=1 if style else 0, set_styles=1, italics=ital, same_times=same)
-    other = build_set(cap_l=2, node_l=1, italics=2, two_langs=True, style=1, set_styles=1)
+    # the set written before: another document that reuses the class name s1 with other rules, has an unclosed
+    # span, two languages and layouts at several levels
+    other = build_set(cap_l=2, node_l=1, italics=2, two_langs=True, style=1, set_styles=3)
     return _deterministic(1, True, cs, other)
 
 
-def unchanged_full_vtt(dims: bool, cap_l: int, node_l: int, style: int, same: bool, ital: bool, sst: int) -> str:
+def unchanged_full_vtt(dims: bool, cap_l: int, node_l: int, style: int, same: bool, ital: bool, sst: int, rel: bool, fit: bool) -> str:
     """
     pre: 0 <= cap_l < 3 and 0 <= node_l < 3 and 0 <= style < 3 and 0 <= sst < 3
     post: _ == ""
     """
     cs = build_set(set_l=_sel3(cap_l, 0, 2, 0), lang_l=_sel3(node_l, 0, 0, 1), cap_l=_sel3(cap_l, 0, 1, 4), node_l=_sel3(node_l, 0, 2, 4),
                    style=style, set_styles=sst, same_times=same, two_langs=True, italics=2 if ital else 1)
-    return _unchanged(1, dims, cs)
+    return _unchanged(1, dims, cs, rel, fit)
 
 
-def unchanged_mdvd(dims: bool, lay: int, style: int, ital: bool) -> str:
+def unchanged_mdvd(dims: bool, lay: int, style: bool, ital: bool, rel: bool, fit: bool) -> str:
     """
-    pre: 0 <= lay < 3 and 0 <= style < 3
+    pre: 0 <= lay < 3
     post: _ == ""
     """
     cs = build_set(set_l=_sel3(lay, 0, 2, 0), lang_l=_sel3(lay, 0, 1, 0), cap_l=_sel3(lay, 0, 1, 4), node_l=_sel3(lay, 0, 2, 4),
-                   style=style, set_styles=2, same_times=True, two_langs=True, italics=2 if ital else 1)
-    return _unchanged(2, dims, cs)
+                   style=2 if style else 1, set_styles=2, same_times=True, two_langs=True, italics=2 if ital else 1)
+    return _unchanged(2, dims, cs, rel, fit)
 
 
 def deterministic_mdvd(lay: bool, style: bool, ital: int, same: bool) -> str:
@@ -180,28 +186,30 @@ def deterministic_mdvd(lay: bool, style: bool, ital: int, same: bool) -> str:
     post: _ == ""
     """
     cs = build_set(cap_l=1 if lay else 0, node_l=0, style=1 if style else 0, set_styles=1, italics=ital, same_times=same)
-    other = build_set(cap_l=2, node_l=1, italics=2, two_langs=True, style=1, set_styles=1)
+    # the set written before: another document that reuses the class name s1 with other rules, has an unclosed
+    # span, two languages and layouts at several levels
+    other = build_set(cap_l=2, node_l=1, italics=2, two_langs=True, style=1, set_styles=3)
     return _deterministic(2, True, cs, other)
 
 
-def unchanged_full_mdvd(dims: bool, cap_l: int, node_l: int, style: int, same: bool, ital: bool, sst: int) -> str:
+def unchanged_full_mdvd(dims: bool, cap_l: int, node_l: int, style: int, same: bool, ital: bool, sst: int, rel: bool, fit: bool) -> str:
     """
     pre: 0 <= cap_l < 3 and 0 <= node_l < 3 and 0 <= style < 3 and 0 <= sst < 3
     post: _ == ""
     """
     cs = build_set(set_l=_sel3(cap_l, 0, 2, 0), lang_l=_sel3(node_l, 0, 0, 1), cap_l=_sel3(cap_l, 0, 1, 4), node_l=_sel3(node_l, 0, 2, 4),
                    style=style, set_styles=sst, same_times=same, two_langs=True, italics=2 if ital else 1)
-    return _unchanged(2, dims, cs)
+    return _unchanged(2, dims, cs, rel, fit)
 
 
-def unchanged_scc(dims: bool, lay: int, style: int, ital: bool) -> str:
+def unchanged_scc(dims: bool, lay: int, style: bool, ital: bool, rel: bool, fit: bool) -> str:
     """
-    pre: 0 <= lay < 3 and 0 <= style < 3
+    pre: 0 <= lay < 3
     post: _ == ""
     """
     cs = build_set(set_l=_sel3(lay, 0, 2, 0), lang_l=_sel3(lay, 0, 1, 0), cap_l=_sel3(lay, 0, 1, 4), node_l=_sel3(lay, 0, 2, 4),
-                   style=style, set_styles=2, same_times=True, two_langs=True, italics=2 if ital else 1)
-    return _unchanged(3, dims, cs)
+                   style=2 if style else 1, set_styles=2, same_times=True, two_langs=True, italics=2 if ital else 1)
+    return _unchanged(3, dims, cs, rel, fit)
 
 
 def deterministic_scc(lay: bool, style: bool, ital: int, same: bool) -> str:
@@ -210,28 +218,30 @@ def deterministic_scc(lay: bool, style: bool, ital: int, same: bool) -> str:
     post: _ == ""
     """
     cs = build_set(cap_l=1 if lay else 0, node_l=0, style=1 if style else 0, set_styles=1, italics=ital, same_times=same)
-    other = build_set(cap_l=2, node_l=1, italics=2, two_langs=True, style=1, set_styles=1)
+    # the set written before: another document that reuses the class name s1 with other rules, has an unclosed
+    # span, two languages and layouts at several levels
+    other = build_set(cap_l=2, node_l=1, italics=2, two_langs=True, style=1, set_styles=3)
     return _deterministic(3, True, cs, other)
 
 
-def unchanged_full_scc(dims: bool, cap_l: int, node_l: int, style: int, same: bool, ital: bool, sst: int) -> str:
+def unchanged_full_scc(dims: bool, cap_l: int, node_l: int, style: int, same: bool, ital: bool, sst: int, rel: bool, fit: bool) -> str:
     """
     pre: 0 <= cap_l < 3 and 0 <= node_l < 3 and 0 <= style < 3 and 0 <= sst < 3
     post: _ == ""
     """
     cs = build_set(set_l=_sel3(cap_l, 0, 2, 0), lang_l=_sel3(node_l, 0, 0, 1), cap_l=_sel3(cap_l, 0, 1, 4), node_l=_sel3(node_l, 0, 2, 4),
                    style=style, set_styles=sst, same_times=same, two_langs=True, italics=2 if ital else 1)
-    return _unchanged(3, dims, cs)
+    return _unchanged(3, dims, cs, rel, fit)
 
 
-def unchanged_sami(dims: bool, lay: int, style: int, ital: bool) -> str:
+def unchanged_sami(dims: bool, lay: int, style: bool, ital: bool, rel: bool, fit: bool) -> str:
     """
-    pre: 0 <= lay < 3 and 0 <= style < 3
+    pre: 0 <= lay < 3
     post: _ == ""
     """
     cs = build_set(set_l=_sel3(lay, 0, 2, 0), lang_l=_sel3(lay, 0, 1, 0), cap_l=_sel3(lay, 0, 1, 4), node_l=_sel3(lay, 0, 2, 4),
-                   style=style, set_styles=2, same_times=True, two_langs=True, italics=2 if ital else 1)
-    return _unchanged(4, dims, cs)
+                   style=2 if style else 1, set_styles=2, same_times=True, two_langs=True, italics=2 if ital else 1)
+    return _unchanged(4, dims, cs, rel, fit)
 
 
 def deterministic_sami(lay: bool, style: bool, ital: int, same: bool) -> str:
@@ -240,28 +250,30 @@ def deterministic_sami(lay: bool, style: bool, ital: int, same: bool) -> str:
     post: _ == ""
     """
     cs = build_set(cap_l=1 if lay else 0, node_l=0, style=1 if style else 0, set_styles=1, italics=ital, same_times=same)
-    other = build_set(cap_l=2, node_l=1, italics=2, two_langs=True, style=1, set_styles=1)
+    # the set written before: another document that reuses the class name s1 with other rules, has an unclosed
+    # span, two languages and layouts at several levels
+    other = build_set(cap_l=2, node_l=1, italics=2, two_langs=True, style=1, set_styles=3)
     return _deterministic(4, True, cs, other)
 
 
-def unchanged_full_sami(dims: bool, cap_l: int, node_l: int, style: int, same: bool, ital: bool, sst: int) -> str:
+def unchanged_full_sami(dims: bool, cap_l: int, node_l: int, style: int, same: bool, ital: bool, sst: int, rel: bool, fit: bool) -> str:
     """
     pre: 0 <= cap_l < 3 and 0 <= node_l < 3 and 0 <= style < 3 and 0 <= sst < 3
     post: _ == ""
     """
     cs = build_set(set_l=_sel3(cap_l, 0, 2, 0), lang_l=_sel3(node_l, 0, 0, 1), cap_l=_sel3(cap_l, 0, 1, 4), node_l=_sel3(node_l, 0, 2, 4),
                    style=style, set_styles=sst, same_times=same, two_langs=True, italics=2 if ital else 1)
-    return _unchanged(4, dims, cs)
+    return _unchanged(4, dims, cs, rel, fit)
 
 
-def unchanged_dfxp(dims: bool, lay: int, style: int, ital: bool) -> str:
+def unchanged_dfxp(dims: bool, lay: int, style: bool, ital: bool, rel: bool, fit: bool) -> str:
     """
-    pre: 0 <= lay < 3 and 0 <= style < 3
+    pre: 0 <= lay < 3
     post: _ == ""
     """
     cs = build_set(set_l=_sel3(lay, 0, 2, 0), lang_l=_sel3(lay, 0, 1, 0), cap_l=_sel3(lay, 0, 1, 4), node_l=_sel3(lay, 0, 2, 4),
-                   style=style, set_styles=2, same_times=True, two_langs=True, italics=2 if ital else 1)
-    return _unchanged(5, dims, cs)
+                   style=2 if style else 1, set_styles=2, same_times=True, two_langs=True, italics=2 if ital else 1)
+    return _unchanged(5, dims, cs, rel, fit)
 
 
 def deterministic_dfxp(lay: bool, style: bool, ital: int, same: bool) -> str:
@@ -270,28 +282,30 @@ def deterministic_dfxp(lay: bool, style: bool, ital: int, same: bool) -> str:
     post: _ == ""
     """
     cs = build_set(cap_l=1 if lay else 0, node_l=0, style=1 if style else 0, set_styles=1, italics=ital, same_times=same)
-    other = build_set(cap_l=2, node_l=1, italics=2, two_langs=True, style=1, set_styles=1)
+    # the set written before: another document that reuses the class name s1 with other rules, has an unclosed
+    # span, two languages and layouts at several levels
+    other = build_set(cap_l=2, node_l=1, italics=2, two_langs=True, style=1, set_styles=3)
     return _deterministic(5, True, cs, other)
 
 
-def unchanged_full_dfxp(dims: bool, cap_l: int, node_l: int, style: int, same: bool, ital: bool, sst: int) -> str:
+def unchanged_full_dfxp(dims: bool, cap_l: int, node_l: int, style: int, same: bool, ital: bool, sst: int, rel: bool, fit: bool) -> str:
     """
     pre: 0 <= cap_l < 3 and 0 <= node_l < 3 and 0 <= style < 3 and 0 <= sst < 3
     post: _ == ""
     """
     cs = build_set(set_l=_sel3(cap_l, 0, 2, 0), lang_l=_sel3(node_l, 0, 0, 1), cap_l=_sel3(cap_l, 0, 1, 4), node_l=_sel3(node_l, 0, 2, 4),
                    style=style, set_styles=sst, same_times=same, two_langs=True, italics=2 if ital else 1)
-    return _unchanged(5, dims, cs)
+    return _unchanged(5, dims, cs, rel, fit)
 
 
-def unchanged_single(dims: bool, lay: int, style: int, ital: bool) -> str:
+def unchanged_single(dims: bool, lay: int, style: bool, ital: bool, rel: bool, fit: bool) -> str:
     """
-    pre: 0 <= lay < 3 and 0 <= style < 3
+    pre: 0 <= lay < 3
     post: _ == ""
     """
     cs = build_set(set_l=_sel3(lay, 0, 2, 0), lang_l=_sel3(lay, 0, 1, 0), cap_l=_sel3(lay, 0, 1, 4), node_l=_sel3(lay, 0, 2, 4),
-                   style=style, set_styles=2, same_times=True, two_langs=True, italics=2 if ital else 1)
-    return _unchanged(6, dims, cs)
+                   style=2 if style else 1, set_styles=2, same_times=True, two_langs=True, italics=2 if ital else 1)
+    return _unchanged(6, dims, cs, rel, fit)
 
 
 def deterministic_single(lay: bool, style: bool, ital: int, same: bool) -> str:
@@ -300,28 +314,30 @@ def deterministic_single(lay: bool, style: bool, ital: int, same: bool) -> str:
     post: _ == ""
     """
     cs = build_set(cap_l=1 if lay else 0, node_l=0, style=1 if style else 0, set_styles=1, italics=ital, same_times=same)
-    other = build_set(cap_l=2, node_l=1, italics=2, two_langs=True, style=1, set_styles=1)
+    # the set written before: another document that reuses the class name s1 with other rules, has an unclosed
+    # span, two languages and layouts at several levels
+    other = build_set(cap_l=2, node_l=1, italics=2, two_langs=True, style=1, set_styles=3)
     return _deterministic(6, True, cs, other)
 
 
-def unchanged_full_single(dims: bool, cap_l: int, node_l: int, style: int, same: bool, ital: bool, sst: int) -> str:
+def unchanged_full_single(dims: bool, cap_l: int, node_l: int, style: int, same: bool, ital: bool, sst: int, rel: bool, fit: bool) -> str:
     """
     pre: 0 <= cap_l < 3 and 0 <= node_l < 3 and 0 <= style < 3 and 0 <= sst < 3
     post: _ == ""
     """
     cs = build_set(set_l=_sel3(cap_l, 0, 2, 0), lang_l=_sel3(node_l, 0, 0, 1), cap_l=_sel3(cap_l, 0, 1, 4), node_l=_sel3(node_l, 0, 2, 4),
                    style=style, set_styles=sst, same_times=same, two_langs=True, italics=2 if ital else 1)
-    return _unchanged(6, dims, cs)
+    return _unchanged(6, dims, cs, rel, fit)
 
 
-def unchanged_legacy(dims: bool, lay: int, style: int, ital: bool) -> str:
+def unchanged_legacy(dims: bool, lay: int, style: bool, ital: bool, rel: bool, fit: bool) -> str:
     """
-    pre: 0 <= lay < 3 and 0 <= style < 3
+    pre: 0 <= lay < 3
     post: _ == ""
     """
     cs = build_set(set_l=_sel3(lay, 0, 2, 0), lang_l=_sel3(lay, 0, 1, 0), cap_l=_sel3(lay, 0, 1, 4), node_l=_sel3(lay, 0, 2, 4),
-                   style=style, set_styles=2, same_times=True, two_langs=True, italics=2 if ital else 1)
-    return _unchanged(7, dims, cs)
+                   style=2 if style else 1, set_styles=2, same_times=True, two_langs=True, italics=2 if ital else 1)
+    return _unchanged(7, dims, cs, rel, fit)
 
 
 def deterministic_legacy(lay: bool, style: bool, ital: int, same: bool) -> str:
@@ -330,19 +346,45 @@ def deterministic_legacy(lay: bool, style: bool, ital: int, same: bool) -> str:
     post: _ == ""
     """
     cs = build_set(cap_l=1 if lay else 0, node_l=0, style=1 if style else 0, set_styles=1, italics=ital, same_times=same)
-    other = build_set(cap_l=2, node_l=1, italics=2, two_langs=True, style=1, set_styles=1)
+    # the set written before: another document that reuses the class name s1 with other rules, has an unclosed
+    # span, two languages and layouts at several levels
+    other = build_set(cap_l=2, node_l=1, italics=2, two_langs=True, style=1, set_styles=3)
     return _deterministic(7, True, cs, other)
 
 
-def unchanged_full_legacy(dims: bool, cap_l: int, node_l: int, style: int, same: bool, ital: bool, sst: int) -> str:
+def unchanged_full_legacy(dims: bool, cap_l: int, node_l: int, style: int, same: bool, ital: bool, sst: int, rel: bool, fit: bool) -> str:
     """
     pre: 0 <= cap_l < 3 and 0 <= node_l < 3 and 0 <= style < 3 and 0 <= sst < 3
     post: _ == ""
     """
     cs = build_set(set_l=_sel3(cap_l, 0, 2, 0), lang_l=_sel3(node_l, 0, 0, 1), cap_l=_sel3(cap_l, 0, 1, 4), node_l=_sel3(node_l, 0, 2, 4),
                    style=style, set_styles=sst, same_times=same, two_langs=True, italics=2 if ital else 1)
-    return _unchanged(7, dims, cs)
+    return _unchanged(7, dims, cs, rel, fit)
 
+
+
+# --- hash seeds: every set in the DFXP module iterates in a solver-chosen order (harness/ndset.py) -----------
+def hashseed_dfxp(p0: int, p1: int, la: int, lb: int) -> str:
+    """
+    pre: 0 <= p0 <= 2 and 0 <= p1 <= 1 and 0 <= la < 3 and 0 <= lb < 3
+    post: _ == ""
+    """
+    # any iteration order (p0, p1 pick the next element among the remaining ones) against insertion order
+    from harness.ndset import nondet_module, PICKS
+    nd, sites = nondet_module(_db)
+    if sites == 0:
+        return ""  # the module creates no set: nothing can depend on set order
+    nd.BeautifulSoup = lambda markup, features=None: dfxp_soup()
+    cs = build_set(cap_l=5, node_l=_sel3(la, 1, 2, 5), node_l2=_sel3(lb, 2, 1, 4), two_langs=True, italics=3)
+    with StableHash():
+        outs = []
+        for picks in ([p0, p1], []):
+            PICKS[0] = picks
+            try:
+                outs.append(nd.DFXPWriter(video_width=640, video_height=360).write(cs))
+            finally:
+                PICKS[0] = []
+    return "" if outs[0] == outs[1] else "output depends on the iteration order of a set (hash seed)"
 
 
 # --- public API replay (real bs4/lxml, no stubs) for the determinism obligations --------------------
